@@ -467,6 +467,12 @@ struct TypedGen {
       std::vector<Val> es; const int n = c.ipick(1, 4); for (int k = 0; k < n; ++k) es.push_back(Val::Int(c.pick(0, 6)));
       g.value = Val::Set(es); G.globals.push_back(g);
     }
+    // element-typed globals (terms like D7:==debool(...) in real schemas) so that elements of nominal bases have names
+    for (int i = 1; i <= nb; ++i) {
+      const Global& b = G.globals[static_cast<size_t>(i - 1)];
+      if (b.value.items.empty() || !c.chance(3, 4)) continue;
+      Global g; g.name = "D" + std::to_string(6 + i); g.type = Ty::Base(b.name); g.value = c.oneof(b.value.items); G.globals.push_back(g);
+    }
     const int ns = c.ipick(1, 3);
     for (int i = 1; i <= ns; ++i) {
       Global g; g.name = "S" + std::to_string(i); g.type = Ty::Set(randType(2)); g.value = randValue(g.type, 4); G.globals.push_back(g);
